@@ -1,29 +1,32 @@
 (* C02 -- Consensus agreement: honest nodes never decide different values for a duty.
 
-   STAGE 1 (this file now): the quorum arithmetic every agreement argument rests on, for EVERY n >= 1
-   (the property text names n in 3..7; nothing here is bounded), about the same quorum/faulty
-   functions the model of qbft.Run uses (Common/Quorum.v, compared with the Go Quorum()/Faulty()
-   for n = 1..200 on every check), and the single-process facts about COMMIT/Decide.
-   Proofs are in Common/Quorum.v and Qbft/ModelFacts.v; the model is Qbft/Model.v.
+   Proved here (all for EVERY n >= 1, every set of at most f = floor((n-1)/3) Byzantine members, every leader
+   function and FIFO limit -- the property text names n in 3..7; nothing is bounded):
 
-   TODO-stage-2 (full intended statements, DESIGN.md section C02; to be added over Qbft/Net.v):
+   * [C02_agreement_default]: in every execution of the network semantics Qbft/Net.v in which Compare never reports a
+     mismatch (the default configuration: feature chain_split_halt off), any two Decide callbacks of honest members
+     carry the same value.  Net.v: every honest member runs the executable model of qbft.Run (Qbft/Model.v, for every
+     choice of Go's map orders); the adversary delivers, at any time and to anybody, any message each of whose parts
+     (main part and every justification part) was broadcast by an honest member or carries a Byzantine source -- which
+     covers delay, loss, reordering, duplication, replay, cross-assembly of justifications, equivocating proposals,
+     votes for several values and forged prepared-claims; timeouts and inputs may happen at any time; crashed or late
+     members are members that take no steps.  Signatures are symbolic (a part with an honest source exists only if that
+     member broadcast it); sources are members (the wrapper rejects unknown peers).
+   * the supporting single-process facts over ALL label sequences of the model: one PREPARE and one COMMIT per round,
+     a ROUND-CHANGE carries a prepared round at least every round the member committed in (and the committed value
+     if equal), every Decide is backed by a commit quorum; and the quorum arithmetic.
+   * [C02_agreement_observed]: the same conclusion for every global trace the executable replay [nrun] accepts; the
+     check replays the cluster executions recorded from the real qbft.Run through [nrun] (Qbft/Corr.v).
 
-     | Theorem agreement : forall n (Byz : list nat) (leader : nat -> nat) fifo inputs,
-       1 <= n -> length (nodup Byz) <= faulty n ->
-       forall tr, net_trace n Byz leader fifo inputs cmpfail tr ->     (* every finite trace of Net: honest steps of
-            Qbft.Model.fstep for every oracle + adversarial deliveries of any message whose main part and every
-            justification part is in [sent] or has a Byzantine source; CmpFail at process i on value x only if
-            cmpfail i x *)
-       forall i j v v' r r' qc qc', ~ In i Byz -> ~ In j Byz ->
-         emitted tr i (Decide v r qc) -> emitted tr j (Decide v' r' qc') -> v = v'.
-     | Theorem agreement_default : same statement for traces without CmpFail, no hypothesis on compare verdicts.
+   | TODO-stage-2 (full intended statements not yet proved, DESIGN.md section C02):
+     | Theorem agreement : the same with CmpFail allowed at process i on value x only if cmpfail i x for a fixed relation
+       (the compareFailureRound+1 shortcut of isJustifiedPrePrepare); needs the "contiguous chain of failed comparisons"
+       argument on top of Qbft/Agreement.v.
      | Theorem agreement_refuted_if_compare_arbitrary : n = 4 witness when CmpFail may depend on more than (process, value).
-     supporting (Qbft/Inv.v): rounds monotone before the decision; at most one PREPARE and one COMMIT per round per
-       honest process; exactly one ROUND-CHANGE per entered round carrying the current (pr, pv) with a quorum of
-       PREPARE(pr, pv); COMMIT(r, v) only after such a quorum is buffered; containsJustifiedQrc accepts only the value
-       of the highest prepared round of the attached quorum. *)
+   Proofs: Common/Quorum.v, Qbft/ModelFacts.v, Qbft/Inv.v, Qbft/NetInv.v, Qbft/Agreement.v. *)
 From Coq Require Import List NArith Arith Bool.
-From Charon Require Import Common.Quorum Qbft.Model Qbft.Monitor Qbft.ModelFacts.
+From Charon Require Import Common.Quorum Qbft.Model Qbft.Monitor Qbft.ModelFacts Qbft.Inv Qbft.Card Qbft.Net Qbft.NetInv
+  Qbft.Agreement Qbft.NetExamples.
 Import ListNotations.
 
 (* quorum n = ceil(2n/3), faulty n = floor((n-1)/3): the Go definitions. *)
@@ -70,3 +73,50 @@ Theorem C02_decide_needs_commit_quorum : forall p ls s, 1 <= nodes p -> run p in
   forall v r qc, In (v, r, qc) (decs ls) -> quorum (nodes p) <= nsrc (f_trv Commit r v) qc.
 Proof. intros p ls s Hn H. exact (mon3_backed_from p ls g3_init (run_mon3 p ls s Hn H)). Qed.
 Print Assumptions C02_decide_needs_commit_quorum.
+
+(* ---- agreement ---- *)
+
+(* Any two Decide callbacks (member, value, round) of a reachable execution without compare failures agree. *)
+Theorem C02_agreement_default : forall c nt tr, wf_cfg c -> nreach c nt tr -> trace_nofail tr ->
+  forall i v r j v' r', In (i, v, r) (trace_decides tr) -> In (j, v', r') (trace_decides tr) -> v = v'.
+Proof. exact agreement_default. Qed.
+Print Assumptions C02_agreement_default.
+
+(* State form: in any global state satisfying the network invariant, two decided honest members hold the same value. *)
+Theorem C02_agreement_states : forall c nt, wf_cfg c -> ninv c nt ->
+  forall i j, good c i -> good c j -> decided (nst nt i) = true -> decided (nst nt j) = true ->
+  qcommitV (nst nt i) = qcommitV (nst nt j).
+Proof. exact agreement_states. Qed.
+Print Assumptions C02_agreement_states.
+
+(* What the correspondence check uses: a global trace accepted by the executable replay is an execution. *)
+Theorem C02_agreement_observed : forall c tr nt, wf_cfg c -> nrun c net_init tr = Some nt -> trace_nofail tr ->
+  forall i v r j v' r', In (i, v, r) (trace_decides tr) -> In (j, v', r') (trace_decides tr) -> v = v'.
+Proof. intros c tr nt Hw Hr. exact (agreement_default c nt tr Hw (nrun_sound c tr nt Hr)). Qed.
+Print Assumptions C02_agreement_observed.
+
+(* Single process, all label sequences: at most one PREPARE value and one COMMIT value per round. *)
+Theorem C02_one_prepare_per_round : forall p ls s, 1 <= nodes p -> run p init ls = Some s ->
+  forall b b', In b (log_of ls) -> In b' (log_of ls) -> ty b = Prepare -> ty b' = Prepare -> rnd b = rnd b' -> val b = val b'.
+Proof. exact one_prepare_per_round. Qed.
+Print Assumptions C02_one_prepare_per_round.
+
+Theorem C02_one_commit_per_round : forall p ls s, 1 <= nodes p -> run p init ls = Some s ->
+  forall b b', In b (log_of ls) -> In b' (log_of ls) -> ty b = Commit -> ty b' = Commit -> rnd b = rnd b' -> val b = val b'.
+Proof. exact one_commit_per_round. Qed.
+Print Assumptions C02_one_commit_per_round.
+
+(* A ROUND-CHANGE for a round above one the member committed in carries pr >= that round (and the committed value if equal). *)
+Theorem C02_round_change_carries_lock : forall p ls s, 1 <= nodes p -> run p init ls = Some s ->
+  forall c b, In c (log_of ls) -> In b (log_of ls) -> ty c = Commit -> ty b = RoundChange -> rnd c < rnd b ->
+  rnd c <= pr b /\ (rnd c = pr b -> val c = pv b).
+Proof. exact round_change_carries_lock. Qed.
+Print Assumptions C02_round_change_carries_lock.
+
+(* Non-vacuity: a recorded execution of four real qbft.Run processes (one crashed, a round change) is an execution of
+   Net.v without compare failures in which three members decide (the same value). *)
+Theorem C02_net_nonvacuous :
+  nrun_ok exnet_cfg exnet_trace = true /\ forallb (fun e => label_nofail (snd e)) exnet_trace = true
+  /\ length (trace_decides exnet_trace) = 3.
+Proof. exact (conj exnet_accepted (conj exnet_nofail (f_equal (@length _) exnet_decides))). Qed.
+Print Assumptions C02_net_nonvacuous.
